@@ -3,6 +3,7 @@
 mod alloc_count;
 mod catalogue;
 mod engine;
+mod m_alloc;
 mod m_clone;
 mod m_dict;
 mod m_huff;
